@@ -176,18 +176,21 @@ impl<C: CrcCalculator> Encapsulator<C> {
 
     pub fn disable_re_use_label(&mut self) {
         self.re_use_activated = false;
+        self.last_label = None;
         self.re_max_consecutive = 0;
         self.re_current_consecutive = 0;
     }
 
     pub fn enable_re_use_label(&mut self) {
         self.re_use_activated = true;
+        self.last_label = None;
         self.re_max_consecutive = 0;
         self.re_current_consecutive = 0;
     }
 
     pub fn enable_re_use_label_with_max_consecutive(&mut self, max_consecutive: u8) {
         self.re_use_activated = true;
+        self.last_label = None;
         self.re_max_consecutive = max_consecutive;
         self.re_current_consecutive = 0;
     }
